@@ -6,77 +6,79 @@ functions at once: no nil dereference, the fuel marker is impossible when the fu
 -/
 namespace Ecal.Parse
 open Ecal.Lex
+variable {ts : List Tok}
 
 /-- result of an expression parse: has a token; no nil child and only known node names anywhere -/
 def ResOk (r : Node) : Prop := (∃ t, r.tok = some t) ∧ okTree r = true
 /-- result of a function which only appends children to `acc` -/
 def Same (acc r : Node) : Prop := r.tok = acc.tok ∧ okTree r = true
 
-macro "spr " h:term : tactic => `(tactic| apply Sat.bind $h (fun _ he => ⟨he.1, fun _ => he.2⟩))
-macro "sih " h:term : tactic => `(tactic| apply Sat.bind $h (fun _ he => ⟨he.1, fun hf => he.2 (by omega)⟩))
-macro "spr_last " h:term : tactic => `(tactic| apply Sat.mono $h (fun _ he => ⟨he.1, fun _ => he.2⟩))
-macro "sih_last " h:term : tactic => `(tactic| apply Sat.mono $h (fun _ he => ⟨he.1, fun hf => he.2 (by omega)⟩))
+macro "spr " h:term : tactic => `(tactic| apply Sat.bind $h (fun _ he => ⟨he.1, fun _ => he.2.1, he.2.2⟩))
+macro "sih " h:term : tactic => `(tactic| apply Sat.bind $h (fun _ he => ⟨he.1, fun hf => he.2.1 (by omega), he.2.2⟩))
+macro "spr_last " h:term : tactic => `(tactic| apply Sat.mono $h (fun _ he => ⟨he.1, fun _ => he.2.1, he.2.2⟩))
+macro "sih_last " h:term : tactic => `(tactic| apply Sat.mono $h (fun _ he => ⟨he.1, fun hf => he.2.1 (by omega), he.2.2⟩))
 macro "sget" : tactic => `(tactic| (apply Sat.bind (Sat.getP (Q := fun a p' => _ = a ∧ _ = p') ⟨rfl, rfl⟩) (fun _ he => he); intro _ _ hget; obtain ⟨hget1, hget2⟩ := hget; subst hget1; subst hget2))
 
-structure Specs (f : Nat) : Prop where
-  run : ∀ rbp p, Cur p → Sat (run f rbp) p
-    (fun r p' => Cur p' ∧ p'.toks.length < p.toks.length ∧ ResOk r) (EFuel p 1 f)
-  loopLed : ∀ rbp left p, Cur p → ResOk left → Sat (loopLed f rbp left) p
-    (fun r p' => Cur p' ∧ p'.toks.length ≤ p.toks.length ∧ ResOk r) (EFuel p 1 f)
-  nudOf : ∀ self p, Cur p → Fresh self → self.nud ≠ .none → Sat (nudOf f self) p
-    (fun r p' => Cur p' ∧ p'.toks.length ≤ p.toks.length ∧ ResOk r) (EFuel p 3 f)
-  exprList : ∀ stop acc p, Cur p → okTree acc = true → Sat (exprList f stop acc) p
-    (fun r p' => Cur p' ∧ p'.toks.length ≤ p.toks.length ∧ Same acc r) (EFuel p 2 f)
-  sinkAttrs : ∀ acc p, Cur p → okTree acc = true → Sat (sinkAttrs f acc) p
-    (fun r p' => Cur p' ∧ p'.toks.length ≤ p.toks.length ∧ Same acc r) (EFuel p 2 f)
-  guardAndStatements : ∀ acc p, Cur p → okTree acc = true → Sat (guardAndStatements f acc) p
-    (fun r p' => Cur p' ∧ p'.toks.length ≤ p.toks.length ∧ Same acc r) (EFuel p 2 f)
-  elifs : ∀ acc p, Cur p → okTree acc = true → Sat (elifs f acc) p
-    (fun r p' => Cur p' ∧ p'.toks.length ≤ p.toks.length ∧ Same acc r) (EFuel p 1 f)
-  excepts : ∀ acc p, Cur p → okTree acc = true → Sat (excepts f acc) p
-    (fun r p' => Cur p' ∧ p'.toks.length ≤ p.toks.length ∧ Same acc r) (EFuel p 1 f)
-  exceptTypes : ∀ acc p, Cur p → okTree acc = true → Sat (exceptTypes f acc) p
-    (fun r p' => Cur p' ∧ p'.toks.length ≤ p.toks.length ∧ Same acc r) (EFuel p 1 f)
-  parseMore : ∀ self acc p, Cur p → (∃ t, self.tok = some t) → okTree acc = true → Sat (parseMore f self acc) p
-    (fun r p' => Cur p' ∧ p'.toks.length ≤ p.toks.length ∧ Same acc r) (EFuel p 1 f)
-  innerStatements : ∀ acc p, Cur p → okTree acc = true → Sat (innerStatements f acc) p
-    (fun r p' => Cur p' ∧ p'.toks.length ≤ p.toks.length ∧ Same acc r) (EFuel p 1 f)
-  moreStatements : ∀ acc n p, Cur p → (∃ t, n.tok = some t) → okTree acc = true → Sat (moreStatements f acc n) p
-    (fun r p' => Cur p' ∧ p'.toks.length ≤ p.toks.length ∧ Same acc r) (EFuel p 2 f)
-  topLoop : ∀ acc n p, Cur p → (∃ t, n.tok = some t) → okTree acc = true → Sat (topLoop f acc n) p
-    (fun r p' => Cur p' ∧ p'.toks.length ≤ p.toks.length ∧ Same acc r) (EFuel p 2 f)
+structure Specs (ts : List Tok) (f : Nat) : Prop where
+  run : ∀ rbp p, Cur ts p → Sat (run f rbp) p
+    (fun r p' => Cur ts p' ∧ p'.toks.length < p.toks.length ∧ ResOk r) (EFuel ts p 1 f)
+  loopLed : ∀ rbp left p, Cur ts p → ResOk left → Sat (loopLed f rbp left) p
+    (fun r p' => Cur ts p' ∧ p'.toks.length ≤ p.toks.length ∧ ResOk r) (EFuel ts p 1 f)
+  nudOf : ∀ self p, Cur ts p → Fresh self → self.nud ≠ .none → Sat (nudOf f self) p
+    (fun r p' => Cur ts p' ∧ p'.toks.length ≤ p.toks.length ∧ ResOk r) (EFuel ts p 3 f)
+  exprList : ∀ stop acc p, Cur ts p → okTree acc = true → Sat (exprList f stop acc) p
+    (fun r p' => Cur ts p' ∧ p'.toks.length ≤ p.toks.length ∧ Same acc r) (EFuel ts p 2 f)
+  sinkAttrs : ∀ acc p, Cur ts p → okTree acc = true → Sat (sinkAttrs f acc) p
+    (fun r p' => Cur ts p' ∧ p'.toks.length ≤ p.toks.length ∧ Same acc r) (EFuel ts p 2 f)
+  guardAndStatements : ∀ acc p, Cur ts p → okTree acc = true → Sat (guardAndStatements f acc) p
+    (fun r p' => Cur ts p' ∧ p'.toks.length ≤ p.toks.length ∧ Same acc r) (EFuel ts p 2 f)
+  elifs : ∀ acc p, Cur ts p → okTree acc = true → Sat (elifs f acc) p
+    (fun r p' => Cur ts p' ∧ p'.toks.length ≤ p.toks.length ∧ Same acc r) (EFuel ts p 1 f)
+  excepts : ∀ acc p, Cur ts p → okTree acc = true → Sat (excepts f acc) p
+    (fun r p' => Cur ts p' ∧ p'.toks.length ≤ p.toks.length ∧ Same acc r) (EFuel ts p 1 f)
+  exceptTypes : ∀ acc p, Cur ts p → okTree acc = true → Sat (exceptTypes f acc) p
+    (fun r p' => Cur ts p' ∧ p'.toks.length ≤ p.toks.length ∧ Same acc r) (EFuel ts p 1 f)
+  parseMore : ∀ self acc p, Cur ts p → (∃ t, self.tok = some t) → okTree acc = true → Sat (parseMore f self acc) p
+    (fun r p' => Cur ts p' ∧ p'.toks.length ≤ p.toks.length ∧ Same acc r) (EFuel ts p 1 f)
+  innerStatements : ∀ acc p, Cur ts p → okTree acc = true → Sat (innerStatements f acc) p
+    (fun r p' => Cur ts p' ∧ p'.toks.length ≤ p.toks.length ∧ Same acc r) (EFuel ts p 1 f)
+  moreStatements : ∀ acc n p, Cur ts p → (∃ t, n.tok = some t) → okTree acc = true → Sat (moreStatements f acc n) p
+    (fun r p' => Cur ts p' ∧ p'.toks.length ≤ p.toks.length ∧ Same acc r) (EFuel ts p 2 f)
+  topLoop : ∀ acc n p, Cur ts p → (∃ t, n.tok = some t) → okTree acc = true → Sat (topLoop f acc n) p
+    (fun r p' => Cur ts p' ∧ p'.toks.length ≤ p.toks.length ∧ Same acc r) (EFuel ts p 2 f)
 
-theorem specs_zero : Specs 0 := by
+theorem specs_zero : Specs ts 0 := by
   constructor <;> intros <;>
     first
-    | (rw [run]; exact Sat.throw ⟨by decide, fun hf => by omega⟩)
-    | (rw [loopLed]; exact Sat.throw ⟨by decide, fun hf => by omega⟩)
-    | (rw [nudOf]; exact Sat.throw ⟨by decide, fun hf => by omega⟩)
-    | (rw [exprList]; exact Sat.throw ⟨by decide, fun hf => by omega⟩)
-    | (rw [sinkAttrs]; exact Sat.throw ⟨by decide, fun hf => by omega⟩)
-    | (rw [guardAndStatements]; exact Sat.throw ⟨by decide, fun hf => by omega⟩)
-    | (rw [elifs]; exact Sat.throw ⟨by decide, fun hf => by omega⟩)
-    | (rw [excepts]; exact Sat.throw ⟨by decide, fun hf => by omega⟩)
-    | (rw [exceptTypes]; exact Sat.throw ⟨by decide, fun hf => by omega⟩)
-    | (rw [parseMore]; exact Sat.throw ⟨by decide, fun hf => by omega⟩)
-    | (rw [innerStatements]; exact Sat.throw ⟨by decide, fun hf => by omega⟩)
-    | (rw [moreStatements]; exact Sat.throw ⟨by decide, fun hf => by omega⟩)
-    | (rw [topLoop]; exact Sat.throw ⟨by decide, fun hf => by omega⟩)
+    | (rw [run]; exact Sat.throw ⟨by decide, fun hf => by omega, trivial⟩)
+    | (rw [loopLed]; exact Sat.throw ⟨by decide, fun hf => by omega, trivial⟩)
+    | (rw [nudOf]; exact Sat.throw ⟨by decide, fun hf => by omega, trivial⟩)
+    | (rw [exprList]; exact Sat.throw ⟨by decide, fun hf => by omega, trivial⟩)
+    | (rw [sinkAttrs]; exact Sat.throw ⟨by decide, fun hf => by omega, trivial⟩)
+    | (rw [guardAndStatements]; exact Sat.throw ⟨by decide, fun hf => by omega, trivial⟩)
+    | (rw [elifs]; exact Sat.throw ⟨by decide, fun hf => by omega, trivial⟩)
+    | (rw [excepts]; exact Sat.throw ⟨by decide, fun hf => by omega, trivial⟩)
+    | (rw [exceptTypes]; exact Sat.throw ⟨by decide, fun hf => by omega, trivial⟩)
+    | (rw [parseMore]; exact Sat.throw ⟨by decide, fun hf => by omega, trivial⟩)
+    | (rw [innerStatements]; exact Sat.throw ⟨by decide, fun hf => by omega, trivial⟩)
+    | (rw [moreStatements]; exact Sat.throw ⟨by decide, fun hf => by omega, trivial⟩)
+    | (rw [topLoop]; exact Sat.throw ⟨by decide, fun hf => by omega, trivial⟩)
 
-theorem run_step {f : Nat} (ih : Specs f) (rbp : Nat) (p : P) (hc : Cur p) :
-    Sat (run (f+1) rbp) p (fun r p' => Cur p' ∧ p'.toks.length < p.toks.length ∧ ResOk r) (EFuel p 1 (f+1)) := by
+theorem run_step {f : Nat} (ih : Specs ts f) (rbp : Nat) (p : P) (hc : Cur ts p) :
+    Sat (run (f+1) rbp) p (fun r p' => Cur ts p' ∧ p'.toks.length < p.toks.length ∧ ResOk r) (EFuel ts p 1 (f+1)) := by
   rw [run]
   sget
-  spr (advance_spec _)
+  spr (advance_spec _ (Cur.toks (by assumption)))
   intro post p1 ⟨hc1, hl1⟩
   obtain ⟨hi, n, hn⟩ := hc
   simp only [hn]
-  have hf := (hi n hn).addMeta post
+  have hf := (hi.fresh n hn).addMeta post
   split
   · obtain ⟨t, ht⟩ := hf.tok
+    have hmem : t ∈ ts := hi.nodeIn n hn t (by simpa using ht)
     spr (tokOf_spec _ ht)
     rintro _ _ ⟨rfl, rfl⟩
-    exact Sat.throw ⟨by simp [errAt], fun _ => by simp [errAt]⟩
+    exact Sat.throw ⟨by simp [errAt], fun _ => by simp [errAt], EPos.at hmem (by simp [sixKinds])⟩
   · next hnud =>
     sih (ih.nudOf _ _ hc1 hf hnud)
     intro left p2 ⟨hc2, hl2, hr2⟩
@@ -84,25 +86,26 @@ theorem run_step {f : Nat} (ih : Specs f) (rbp : Nat) (p : P) (hc : Cur p) :
     intro r p3 ⟨hc3, hl3, hr3⟩
     exact ⟨hc3, by omega, hr3⟩
 
-theorem loopLed_step {f : Nat} (ih : Specs f) (rbp : Nat) (left : Node) (p : P) (hc : Cur p) (hl : ResOk left) :
-    Sat (loopLed (f+1) rbp left) p (fun r p' => Cur p' ∧ p'.toks.length ≤ p.toks.length ∧ ResOk r)
-      (EFuel p 1 (f+1)) := by
+theorem loopLed_step {f : Nat} (ih : Specs ts f) (rbp : Nat) (left : Node) (p : P) (hc : Cur ts p) (hl : ResOk left) :
+    Sat (loopLed (f+1) rbp left) p (fun r p' => Cur ts p' ∧ p'.toks.length ≤ p.toks.length ∧ ResOk r)
+      (EFuel ts p 1 (f+1)) := by
   rw [loopLed]
   spr (cur_spec hc)
-  rintro nx _ ⟨rfl, hnx, hfx⟩
+  rintro nx _ ⟨rfl, hnx, hfx, hinx⟩
   split
   · split
     · obtain ⟨lt, hlt⟩ := hl.1
       spr (tokOf_spec _ hlt)
       rintro _ _ ⟨rfl, rfl⟩
       obtain ⟨nt, hnt⟩ := hfx.tok
+      have hmem : nt ∈ ts := hinx nt hnt
       spr (tokOf_spec _ hnt)
       rintro _ _ ⟨rfl, rfl⟩
       split
       · exact Sat.pure ⟨hc, Nat.le_refl _, hl⟩
-      · exact Sat.throw ⟨by simp [errAt], fun _ => by simp [errAt]⟩
+      · exact Sat.throw ⟨by simp [errAt], fun _ => by simp [errAt], EPos.at hmem (by simp [sixKinds])⟩
     · next hled =>
-      spr (advance_spec _)
+      spr (advance_spec _ (Cur.toks (by assumption)))
       intro post p1 ⟨hc1, hl1⟩
       sih (ih.run _ _ hc1)
       intro right p2 ⟨hc2, hl2, hr2⟩
@@ -119,16 +122,17 @@ end Ecal.Parse
 
 namespace Ecal.Parse
 open Ecal.Lex
+variable {ts : List Tok}
 
 macro "smk" : tactic => `(tactic| (apply Sat.bind (Sat.mkNode (Q := fun g q => _ = q ∧ g = instanceOf _ _ _) ⟨rfl, rfl⟩) (fun _ he => he); intro _ _ hmk; obtain ⟨hmk1, hmk2⟩ := hmk; subst hmk1; subst hmk2))
 
 theorem Same.of_add {acc c r : Node} (h : Same (acc.add c) r) : Same acc r := by
   simpa [Same] using h
 
-theorem exprList_step {f : Nat} (ih : Specs f) (stop : List Nat) (acc : Node) (p : P) (hc : Cur p)
+theorem exprList_step {f : Nat} (ih : Specs ts f) (stop : List Nat) (acc : Node) (p : P) (hc : Cur ts p)
     (hacc : okTree acc = true) :
-    Sat (exprList (f+1) stop acc) p (fun r p' => Cur p' ∧ p'.toks.length ≤ p.toks.length ∧ Same acc r)
-      (EFuel p 2 (f+1)) := by
+    Sat (exprList (f+1) stop acc) p (fun r p' => Cur ts p' ∧ p'.toks.length ≤ p.toks.length ∧ Same acc r)
+      (EFuel ts p 2 (f+1)) := by
   rw [exprList]
   spr (isNotEndAndNotTokens_spec _ hc)
   rintro b _ rfl
@@ -142,10 +146,10 @@ theorem exprList_step {f : Nat} (ih : Specs f) (stop : List Nat) (acc : Node) (p
     exact ⟨hc3, by omega, hs3.of_add⟩
   · exact Sat.pure ⟨hc, Nat.le_refl _, rfl, hacc⟩
 
-theorem sinkAttrs_step {f : Nat} (ih : Specs f) (acc : Node) (p : P) (hc : Cur p)
+theorem sinkAttrs_step {f : Nat} (ih : Specs ts f) (acc : Node) (p : P) (hc : Cur ts p)
     (hacc : okTree acc = true) :
-    Sat (sinkAttrs (f+1) acc) p (fun r p' => Cur p' ∧ p'.toks.length ≤ p.toks.length ∧ Same acc r)
-      (EFuel p 2 (f+1)) := by
+    Sat (sinkAttrs (f+1) acc) p (fun r p' => Cur ts p' ∧ p'.toks.length ≤ p.toks.length ∧ Same acc r)
+      (EFuel ts p 2 (f+1)) := by
   rw [sinkAttrs]
   spr (isNotEndAndNotTokens_spec _ hc)
   rintro b _ rfl
@@ -159,10 +163,10 @@ theorem sinkAttrs_step {f : Nat} (ih : Specs f) (acc : Node) (p : P) (hc : Cur p
     exact ⟨hc3, by omega, hs3.of_add⟩
   · exact Sat.pure ⟨hc, Nat.le_refl _, rfl, hacc⟩
 
-theorem exceptTypes_step {f : Nat} (ih : Specs f) (acc : Node) (p : P) (hc : Cur p)
+theorem exceptTypes_step {f : Nat} (ih : Specs ts f) (acc : Node) (p : P) (hc : Cur ts p)
     (hacc : okTree acc = true) :
-    Sat (exceptTypes (f+1) acc) p (fun r p' => Cur p' ∧ p'.toks.length ≤ p.toks.length ∧ Same acc r)
-      (EFuel p 1 (f+1)) := by
+    Sat (exceptTypes (f+1) acc) p (fun r p' => Cur ts p' ∧ p'.toks.length ≤ p.toks.length ∧ Same acc r)
+      (EFuel ts p 1 (f+1)) := by
   rw [exceptTypes]
   spr (isNotEndAndNotTokens_spec _ hc)
   rintro b _ rfl
@@ -176,18 +180,18 @@ theorem exceptTypes_step {f : Nat} (ih : Specs f) (acc : Node) (p : P) (hc : Cur
     exact ⟨hc3, by omega, hs3.of_add⟩
   · exact Sat.pure ⟨hc, Nat.le_refl _, rfl, hacc⟩
 
-theorem braced_run {f : Nat} (ih : Specs f) (p : P) (hc : Cur p) :
-    Sat (withBraceBlock (run f 0)) p (fun a p' => Cur p' ∧ p'.toks.length < p.toks.length ∧ ResOk a)
-      (EFuel p 1 f) := by
+theorem braced_run {f : Nat} (ih : Specs ts f) (p : P) (hc : Cur ts p) :
+    Sat (withBraceBlock (run f 0)) p (fun a p' => Cur ts p' ∧ p'.toks.length < p.toks.length ∧ ResOk a)
+      (EFuel ts p 1 f) := by
   apply withBraceBlock_spec hc
   intro q hq hqt
-  exact Sat.mono (ih.run 0 q hq) (fun e he => ⟨he.1, fun hf => he.2 (by rw [hqt]; exact hf)⟩)
+  exact Sat.mono (ih.run 0 q hq) (fun e he => ⟨he.1, fun hf => he.2.1 (by rw [hqt]; exact hf), he.2.2⟩)
     (fun a q' h => ⟨h.1, by rw [← hqt]; exact h.2.1, h.2.2⟩)
 
-theorem guardAndStatements_step {f : Nat} (ih : Specs f) (acc : Node) (p : P) (hc : Cur p)
+theorem guardAndStatements_step {f : Nat} (ih : Specs ts f) (acc : Node) (p : P) (hc : Cur ts p)
     (hacc : okTree acc = true) :
-    Sat (guardAndStatements (f+1) acc) p (fun r p' => Cur p' ∧ p'.toks.length ≤ p.toks.length ∧ Same acc r)
-      (EFuel p 2 (f+1)) := by
+    Sat (guardAndStatements (f+1) acc) p (fun r p' => Cur ts p' ∧ p'.toks.length ≤ p.toks.length ∧ Same acc r)
+      (EFuel ts p 2 (f+1)) := by
   rw [guardAndStatements]
   sih (braced_run ih p hc)
   intro e p1 ⟨hc1, hl1, hr1⟩
@@ -196,10 +200,10 @@ theorem guardAndStatements_step {f : Nat} (ih : Specs f) (acc : Node) (p : P) (h
   intro r p3 ⟨hc3, hl3, hs3⟩
   exact ⟨hc3, by omega, hs3.of_add⟩
 
-theorem elifs_step {f : Nat} (ih : Specs f) (acc : Node) (p : P) (hc : Cur p)
+theorem elifs_step {f : Nat} (ih : Specs ts f) (acc : Node) (p : P) (hc : Cur ts p)
     (hacc : okTree acc = true) :
-    Sat (elifs (f+1) acc) p (fun r p' => Cur p' ∧ p'.toks.length ≤ p.toks.length ∧ Same acc r)
-      (EFuel p 1 (f+1)) := by
+    Sat (elifs (f+1) acc) p (fun r p' => Cur ts p' ∧ p'.toks.length ≤ p.toks.length ∧ Same acc r)
+      (EFuel ts p 1 (f+1)) := by
   rw [elifs]
   spr (isNotEndAndToken_spec _ hc)
   rintro b _ rfl
@@ -213,10 +217,10 @@ theorem elifs_step {f : Nat} (ih : Specs f) (acc : Node) (p : P) (hc : Cur p)
     exact ⟨hc3, by omega, hs3.1.trans hs2.1, hs3.2⟩
   · exact Sat.pure ⟨hc, Nat.le_refl _, rfl, hacc⟩
 
-theorem moreStatements_step {f : Nat} (ih : Specs f) (acc n : Node) (p : P) (hc : Cur p)
+theorem moreStatements_step {f : Nat} (ih : Specs ts f) (acc n : Node) (p : P) (hc : Cur ts p)
     (hn : ∃ t, n.tok = some t) (hacc : okTree acc = true) :
-    Sat (moreStatements (f+1) acc n) p (fun r p' => Cur p' ∧ p'.toks.length ≤ p.toks.length ∧ Same acc r)
-      (EFuel p 2 (f+1)) := by
+    Sat (moreStatements (f+1) acc n) p (fun r p' => Cur ts p' ∧ p'.toks.length ≤ p.toks.length ∧ Same acc r)
+      (EFuel ts p 2 (f+1)) := by
   rw [moreStatements]
   obtain ⟨nt, hnt⟩ := hn
   spr (hasMoreStatements_spec hnt hc)
@@ -241,10 +245,10 @@ theorem moreStatements_step {f : Nat} (ih : Specs f) (acc n : Node) (p : P) (hc 
         exact ⟨hc3, by omega, hs3.of_add⟩
   · exact Sat.pure ⟨hc, Nat.le_refl _, rfl, hacc⟩
 
-theorem topLoop_step {f : Nat} (ih : Specs f) (acc n : Node) (p : P) (hc : Cur p)
+theorem topLoop_step {f : Nat} (ih : Specs ts f) (acc n : Node) (p : P) (hc : Cur ts p)
     (hn : ∃ t, n.tok = some t) (hacc : okTree acc = true) :
-    Sat (topLoop (f+1) acc n) p (fun r p' => Cur p' ∧ p'.toks.length ≤ p.toks.length ∧ Same acc r)
-      (EFuel p 2 (f+1)) := by
+    Sat (topLoop (f+1) acc n) p (fun r p' => Cur ts p' ∧ p'.toks.length ≤ p.toks.length ∧ Same acc r)
+      (EFuel ts p 2 (f+1)) := by
   rw [topLoop]
   obtain ⟨nt, hnt⟩ := hn
   spr (hasMoreStatements_spec hnt hc)
@@ -259,18 +263,18 @@ theorem topLoop_step {f : Nat} (ih : Specs f) (acc n : Node) (p : P) (hc : Cur p
     exact ⟨hc3, by omega, hs3.of_add⟩
   · exact Sat.pure ⟨hc, Nat.le_refl _, rfl, hacc⟩
 
-theorem innerStatements_step {f : Nat} (ih : Specs f) (acc : Node) (p : P) (hc : Cur p)
+theorem innerStatements_step {f : Nat} (ih : Specs ts f) (acc : Node) (p : P) (hc : Cur ts p)
     (hacc : okTree acc = true) :
-    Sat (innerStatements (f+1) acc) p (fun r p' => Cur p' ∧ p'.toks.length ≤ p.toks.length ∧ Same acc r)
-      (EFuel p 1 (f+1)) := by
+    Sat (innerStatements (f+1) acc) p (fun r p' => Cur ts p' ∧ p'.toks.length ≤ p.toks.length ∧ Same acc r)
+      (EFuel ts p 1 (f+1)) := by
   rw [innerStatements]
   spr (skipToken_spec _ hc)
   intro _ p1 ⟨hc1, hl1⟩
   smk
   spr (curIsNot_spec _ hc1)
   rintro nr _ rfl
-  apply Sat.bind (Q1 := fun st q => Cur q ∧ q.toks.length ≤ p1.toks.length ∧ okTree st = true)
-    (E1 := EFuel p 1 (f+1)) ?_ (fun _ he => he)
+  apply Sat.bind (Q1 := fun st q => Cur ts q ∧ q.toks.length ≤ p1.toks.length ∧ okTree st = true)
+    (E1 := EFuel ts p 1 (f+1)) ?_ (fun _ he => he)
   · intro st p2 ⟨hc2, hl2, hst⟩
     spr (skipToken_spec _ hc2)
     intro _ p3 ⟨hc3, hl3⟩
@@ -291,11 +295,12 @@ end Ecal.Parse
 
 namespace Ecal.Parse
 open Ecal.Lex
+variable {ts : List Tok}
 
-theorem excepts_step {f : Nat} (ih : Specs f) (acc : Node) (p : P) (hc : Cur p)
+theorem excepts_step {f : Nat} (ih : Specs ts f) (acc : Node) (p : P) (hc : Cur ts p)
     (hacc : okTree acc = true) :
-    Sat (excepts (f+1) acc) p (fun r p' => Cur p' ∧ p'.toks.length ≤ p.toks.length ∧ Same acc r)
-      (EFuel p 1 (f+1)) := by
+    Sat (excepts (f+1) acc) p (fun r p' => Cur ts p' ∧ p'.toks.length ≤ p.toks.length ∧ Same acc r)
+      (EFuel ts p 1 (f+1)) := by
   rw [excepts]
   spr (isNotEndAndToken_spec _ hc)
   rintro b _ rfl
@@ -306,8 +311,8 @@ theorem excepts_step {f : Nat} (ih : Specs f) (acc : Node) (p : P) (hc : Cur p)
     intro ex2 p2 ⟨hc2, hl2, hs2⟩
     spr (curId_spec hc2)
     rintro id _ ⟨rfl, _⟩
-    apply Sat.bind (Q1 := fun ex3 q => Cur q ∧ q.toks.length ≤ p2.toks.length ∧ okTree ex3 = true)
-      (E1 := EFuel p 1 (f+1)) ?_ (fun _ he => he)
+    apply Sat.bind (Q1 := fun ex3 q => Cur ts q ∧ q.toks.length ≤ p2.toks.length ∧ okTree ex3 = true)
+      (E1 := EFuel ts p 1 (f+1)) ?_ (fun _ he => he)
     · intro ex3 p3 ⟨hc3, hl3, hn3⟩
       sih (ih.innerStatements _ _ hc3 hn3)
       intro ex4 p4 ⟨hc4, hl4, hs4⟩
@@ -327,10 +332,10 @@ theorem excepts_step {f : Nat} (ih : Specs f) (acc : Node) (p : P) (hc : Cur p)
         · exact Sat.pure ⟨hc2, Nat.le_refl _, hs2.2⟩
   · exact Sat.pure ⟨hc, Nat.le_refl _, rfl, hacc⟩
 
-theorem parseMore_step {f : Nat} (ih : Specs f) (self acc : Node) (p : P) (hc : Cur p)
+theorem parseMore_step {f : Nat} (ih : Specs ts f) (self acc : Node) (p : P) (hc : Cur ts p)
     (hself : ∃ t, self.tok = some t) (hacc : okTree acc = true) :
-    Sat (parseMore (f+1) self acc) p (fun r p' => Cur p' ∧ p'.toks.length ≤ p.toks.length ∧ Same acc r)
-      (EFuel p 1 (f+1)) := by
+    Sat (parseMore (f+1) self acc) p (fun r p' => Cur ts p' ∧ p'.toks.length ≤ p.toks.length ∧ Same acc r)
+      (EFuel ts p 1 (f+1)) := by
   rw [parseMore]
   spr (curId_spec hc)
   rintro id _ ⟨rfl, _⟩
@@ -354,7 +359,7 @@ theorem parseMore_step {f : Nat} (ih : Specs f) (self acc : Node) (p : P) (hc : 
       intro r p4 ⟨hc4, hl4, hs4⟩
       exact ⟨hc4, by omega, hs4.of_add⟩
     · spr (cur_spec hc)
-      rintro cn _ ⟨rfl, hcn, hfc⟩
+      rintro cn _ ⟨rfl, hcn, hfc, _⟩
       obtain ⟨ct, hct⟩ := hfc.tok
       spr (tokOf_spec _ hct)
       rintro _ _ ⟨rfl, rfl⟩
@@ -385,11 +390,12 @@ end Ecal.Parse
 
 namespace Ecal.Parse
 open Ecal.Lex
+variable {ts : List Tok}
 
-theorem nudOf_step {f : Nat} (ih : Specs f) (self : Node) (p : P) (hc : Cur p) (hf : Fresh self)
+theorem nudOf_step {f : Nat} (ih : Specs ts f) (self : Node) (p : P) (hc : Cur ts p) (hf : Fresh self)
     (hnud : self.nud ≠ .none) :
-    Sat (nudOf (f+1) self) p (fun r p' => Cur p' ∧ p'.toks.length ≤ p.toks.length ∧ ResOk r)
-      (EFuel p 3 (f+1)) := by
+    Sat (nudOf (f+1) self) p (fun r p' => Cur ts p' ∧ p'.toks.length ≤ p.toks.length ∧ ResOk r)
+      (EFuel ts p 3 (f+1)) := by
   rw [nudOf]
   obtain ⟨stok, hstok⟩ := hf.tok
   have hok : ∀ k, self.nud = k → k ≠ .none → k ≠ .inner → k ≠ .list → k ≠ .map → okTree self = true :=
@@ -425,8 +431,8 @@ theorem nudOf_step {f : Nat} (ih : Specs f) (self : Node) (p : P) (hc : Cur p) (
     intro r p3 ⟨hc3, hl3, hs3⟩
     exact ⟨hc3, by omega, ⟨stok, by rw [hs3.1, hs2.1]; simp [hstok]⟩, hs3.2⟩
   · -- func
-    apply Sat.bind (Q1 := fun s1 q => Cur q ∧ q.toks.length ≤ p.toks.length ∧ s1.tok = self.tok ∧ okTree s1 = true)
-      (E1 := EFuel p 3 (f+1)) ?_ (fun _ he => he)
+    apply Sat.bind (Q1 := fun s1 q => Cur ts q ∧ q.toks.length ≤ p.toks.length ∧ s1.tok = self.tok ∧ okTree s1 = true)
+      (E1 := EFuel ts p 3 (f+1)) ?_ (fun _ he => he)
     · intro s1 p1 ⟨hc1, hl1, ht1, hn1⟩
       spr (skipToken_spec _ hc1)
       intro _ p2 ⟨hc2, hl2⟩
@@ -449,7 +455,7 @@ theorem nudOf_step {f : Nat} (ih : Specs f) (self : Node) (p : P) (hc : Cur p) (
     spr (tokOf_spec _ hstok)
     rintro _ _ ⟨rfl, rfl⟩
     spr (cur_spec hc)
-    rintro cn _ ⟨rfl, hcn, hfc⟩
+    rintro cn _ ⟨rfl, hcn, hfc, _⟩
     obtain ⟨ct, hct⟩ := hfc.tok
     spr (tokOf_spec _ hct)
     rintro _ _ ⟨rfl, rfl⟩
@@ -499,7 +505,7 @@ theorem nudOf_step {f : Nat} (ih : Specs f) (self : Node) (p : P) (hc : Cur p) (
     obtain ⟨et, het⟩ := hr1.1
     spr (tokOf_spec _ het)
     rintro _ _ ⟨rfl, rfl⟩
-    apply Sat.bind (Q1 := fun g q => q = p1 ∧ okTree g = true) (E1 := EFuel p 3 (f+1)) ?_ (fun _ he => he)
+    apply Sat.bind (Q1 := fun g q => q = p1 ∧ okTree g = true) (E1 := EFuel ts p 3 (f+1)) ?_ (fun _ he => he)
     · rintro g _ ⟨rfl, hg⟩
       sih_last (ih.innerStatements _ _ hc1 (okTree_add (hok _ (by assumption) (by decide) (by decide) (by decide) (by decide)) hg))
       intro r p3 ⟨hc3, hl3, hs3⟩
@@ -513,8 +519,8 @@ theorem nudOf_step {f : Nat} (ih : Specs f) (self : Node) (p : P) (hc : Cur p) (
     intro t1 p1 ⟨hc1, hl1, hs1⟩
     sih (ih.excepts _ _ hc1 hs1.2)
     intro t2 p2 ⟨hc2, hl2, hs2⟩
-    apply Sat.bind (Q1 := fun t3 q => Cur q ∧ q.toks.length ≤ p2.toks.length ∧ t3.tok = self.tok ∧ okTree t3 = true)
-      (E1 := EFuel p 3 (f+1)) ?_ (fun _ he => he)
+    apply Sat.bind (Q1 := fun t3 q => Cur ts q ∧ q.toks.length ≤ p2.toks.length ∧ t3.tok = self.tok ∧ okTree t3 = true)
+      (E1 := EFuel ts p 3 (f+1)) ?_ (fun _ he => he)
     · intro t3 p3 ⟨hc3, hl3, ht3, hn3⟩
       spr (curId_spec hc3)
       rintro id _ ⟨rfl, _⟩
@@ -545,7 +551,7 @@ theorem nudOf_step {f : Nat} (ih : Specs f) (self : Node) (p : P) (hc : Cur p) (
     intro r p1 ⟨hc1, hl1, hs1⟩
     exact ⟨hc1, hl1, ResOk.of_same hf hs1⟩
 
-theorem specs : ∀ f, Specs f
+theorem specs : ∀ f, Specs ts f
   | 0 => specs_zero
   | f+1 =>
     have ih := specs f
@@ -559,38 +565,40 @@ end Ecal.Parse
 
 namespace Ecal.Parse
 open Ecal.Lex
+variable {ts : List Tok}
 
 /-- ParseWithRuntime's body on any token list with any fuel -/
 theorem parseBody_spec (fuel : Nat) (toks : List Tok) :
     Sat (parseBody fuel) { toks := toks, node := none } (fun r _ => okTree r = true)
-      (fun e => e ≠ .panic ∧ (4 * toks.length + 4 ≤ fuel → e ≠ .fuel)) := by
-  have ih := specs fuel
+      (fun e => e ≠ .panic ∧ (4 * toks.length + 4 ≤ fuel → e ≠ .fuel) ∧ EPos toks e) := by
+  have ih := specs (ts := toks) fuel
   unfold parseBody
-  apply Sat.bind (advance_spec _) (fun _ he => ⟨he.1, fun _ => he.2⟩)
+  apply Sat.bind (advance_spec (ts := toks) _ (fun t ht => ht)) (fun _ he => ⟨he.1, fun _ => he.2.1, he.2.2⟩)
   intro _ p1 ⟨hc1, hl1⟩
   simp only at hl1
-  apply Sat.bind (ih.run _ _ hc1) (fun _ he => ⟨he.1, fun hf => he.2 (by omega)⟩)
+  apply Sat.bind (ih.run _ _ hc1) (fun _ he => ⟨he.1, fun hf => he.2.1 (by omega), he.2.2⟩)
   intro n p2 ⟨hc2, hl2, hr2⟩
-  apply Sat.bind (Q1 := fun n' q => Cur q ∧ okTree n' = true)
-    (E1 := fun e => e ≠ .panic ∧ (4 * toks.length + 4 ≤ fuel → e ≠ .fuel)) ?_ (fun _ he => he)
+  apply Sat.bind (Q1 := fun n' q => Cur toks q ∧ okTree n' = true)
+    (E1 := fun e => e ≠ .panic ∧ (4 * toks.length + 4 ≤ fuel → e ≠ .fuel) ∧ EPos toks e) ?_ (fun _ he => he)
   · intro n' p3 ⟨hc3, hn3⟩
     apply Sat.bind (Sat.getP (Q := fun a p' => p3 = a ∧ p3 = p') ⟨rfl, rfl⟩) (fun _ he => he)
     rintro _ _ ⟨rfl, rfl⟩
     obtain ⟨hi, nx, hnx⟩ := hc3
     simp only [hnx]
-    obtain ⟨t, ht⟩ := (hi nx hnx).tok
-    apply Sat.bind (tokOf_spec _ ht) (fun _ he => ⟨he.1, fun _ => he.2⟩)
+    obtain ⟨t, ht⟩ := (hi.fresh nx hnx).tok
+    have hmem : t ∈ toks := hi.nodeIn nx hnx t ht
+    apply Sat.bind (tokOf_spec _ ht) (fun _ he => ⟨he.1, fun _ => he.2.1, he.2.2⟩)
     rintro _ _ ⟨rfl, rfl⟩
     split
-    · exact Sat.throw ⟨by simp [errAt], fun _ => by simp [errAt]⟩
+    · exact Sat.throw ⟨by simp [errAt], fun _ => by simp [errAt], EPos.at hmem (by simp [sixKinds])⟩
     · exact Sat.pure hn3
   · obtain ⟨nt, hnt⟩ := hr2.1
-    apply Sat.bind (hasMoreStatements_spec hnt hc2) (fun _ he => ⟨he.1, fun _ => he.2⟩)
+    apply Sat.bind (hasMoreStatements_spec hnt hc2) (fun _ he => ⟨he.1, fun _ => he.2.1, he.2.2⟩)
     rintro b _ rfl
     split
     · smk
       apply Sat.mono (ih.topLoop _ _ _ hc2 hr2.1 (okTree_add (okInst (by decide)) hr2.2))
-        (fun _ he => ⟨he.1, fun hf => he.2 (by omega)⟩)
+        (fun _ he => ⟨he.1, fun hf => he.2.1 (by omega), he.2.2⟩)
       intro r p3 ⟨hc3, _, hs3⟩
       exact ⟨hc3, hs3.2⟩
     · exact Sat.pure ⟨hc2, hr2.2⟩
